@@ -217,6 +217,18 @@ Example C11_example :
    validate_fixed toy_sha toy_load toy_verify w_data w_table_ok = Some BGPSEC_VALID).
 Proof. exact (conj w_wf (conj w_ok_valid (conj w_valid w_fixed))). Qed.
 
+(* The octets of the RFC sequence for that update, readable: target AS 65002 | pCount 1, flags 0,
+   AS 65001 | suite 1 | AFI 1 | SAFI 1 | /24 192.0.2 ; and an environment in which both
+   hypotheses of C11_bitflip hold together with a VALID update. *)
+Example C11_example_digest :
+  (digest_for_hop 0 (to_update w2_data)
+   = Some [0; 0; 253; 234; 1; 0; 0; 0; 253; 233; 1; 0; 1; 1; 24; 192; 0; 2] /\
+   validate toy_sha toy_load toy2_verify w2_data w_table_ok = Some BGPSEC_VALID) /\
+  (forall m m', toy_sha m = toy_sha m' -> m = m') /\
+  (forall spki spki' h h' sg, sig_ok toy_load toy2_verify spki h sg = true ->
+                              sig_ok toy_load toy2_verify spki' h' sg = true -> h = h').
+Proof. exact (conj w2_valid (conj toy_sha_collision_free toy2_binds_hash)). Qed.
+
 Print Assumptions C11_size.
 Print Assumptions C11_layout.
 Print Assumptions C11_inj.
